@@ -142,10 +142,16 @@ PROPS = {
                    'set of the statement with preparations, post-selections and swaps at every depth are exported; the real '
                    'pytket circuit is run on an independent exact branching simulator (rtc/tksim.py); discopy\'s own '
                    'post-selection / scaling / post-processing code path is driven through a backend object returning exact '
-                   'frequencies and compared with the mixed evaluation; counts through the backend; from_tk(to_tk(c)); and all '
-                   'pytket circuits with <= 2 commands over the supported operations are imported and compared.',
+                   'frequencies and compared with the mixed evaluation; counts through the backend; from_tk(to_tk(c)); all '
+                   'pytket circuits with <= 2 commands over the supported operations are imported and compared (a refusal of '
+                   'such a circuit is a failure). Families added after misses / reports: removal of a qubit then swaps; '
+                   'classical bookkeeping (6 ways of measuring 3 qubits incl. Measure(3), then bit swaps, NOT, Bits(0) at every '
+                   'offset); post-selection beside measured bits then bit swaps; mixed / negative / pure scalars at both ends; '
+                   'batches of circuits with different scalars and post-selections; rotation angles over tket\'s whole range with '
+                   'interference; daggered S and T; two-qubit gates between far-apart units.',
         level_note='No obligation proved. Trusted: pytket\'s get_commands / register bookkeeping, rtc/tksim.py. Known findings '
-                   'F20 (Discard of a bit not exported) and F22 (get_counts(backend) skips post-processing).',
+                   'F20 (Discard of a bit not exported), F22 (get_counts(backend) skips post-processing) and F23 (Bits prepared '
+                   'beside a live bit; attributed only when the disagreement disappears with add_bit alone repaired).',
         technique='bounded run-time contracts against an independent exact simulator of the exported tket circuit'),
     'C14': dict(
         title='Substituting parameters commutes with evaluation',
@@ -197,7 +203,7 @@ PROPS = {
         level='proof',
         vc=['monoidal.Functor.__call__', 'monoidal.Diagram.then', 'monoidal.Diagram.tensor', 'monoidal.Id.__init__',
             'rigid.Functor.__call__[Cup]', 'rigid.Functor.__call__[Cap]', 'rigid.cups', 'rigid.caps', 'rigid.Cup.__init__',
-            'rigid.Cap.__init__'],
+            'rigid.Cap.__init__', 'lemma:canary:rigid.functor', 'lemma:canary:adjoint.homomorphic'],
         sym=[], rtc='C04',
         level_text='Proof (type-level clauses, all functors, all diagrams of any length): the real whiskering loop of '
                    'monoidal.Functor.__call__ is verified with a relational loop invariant against the contracts of then / '
@@ -260,7 +266,7 @@ PROPS = {
         title='Swaps and permutations realise exactly the requested wire permutation',
         level='exploration',
         vc=['monoidal.Diagram.swap', 'rigid.Diagram.swap', 'monoidal.Swap.__init__', 'rigid.Swap.__init__',
-            'monoidal.Diagram.__init__[accepts]'],
+            'monoidal.Diagram.__init__[accepts]', 'lemma:canary:constructors'],
         sym=[], rtc='C10',
         level_text='The wire map (the clause that gives the property its name) is a bounded stand-in: in each of the five '
                    'classes, swap(l, r) for all types of length <= 2 (thorough 3) over 3 atoms and permutation(perm, dom) for '
@@ -303,7 +309,8 @@ PROPS = {
             'biclosed.Functor.__call__[BA]', 'biclosed.Functor.__call__[FC]', 'biclosed.Functor.__call__[BC]',
             'biclosed.Functor.__call__[FX]', 'biclosed.Functor.__call__[BX]', 'biclosed.Functor.__call__[Curry]',
             'rigid.cups', 'rigid.caps', 'rigid.Cup.__init__', 'rigid.Cap.__init__', 'rigid.Diagram.swap',
-            'monoidal.Diagram.swap'],
+            'monoidal.Diagram.swap', 'lemma:canary:adjoint.homomorphic', 'lemma:canary:slash.functor',
+            'lemma:canary:constructors'],
         sym=[], rtc='C18',
         level_text='Proved (VC, all type lengths and nesting depths): the translation clause, end to end for a single rule. '
                    '(1) The class invariants of the rule boxes: the real constructors of biclosed.FA / BA / FC / BC / FX / BX / '
@@ -338,7 +345,7 @@ PROPS = {
         title='Cartesian diagrams compute the function they draw',
         level='proof',
         vc=['cartesian.Function.__call__', 'cartesian.Function.then', 'cartesian.Function.tensor', 'cartesian.Function.id',
-            'monoidal.Functor.__call__[python]'],
+            'monoidal.Functor.__call__[python]', 'lemma:canary:pyfun.identity'],
         sym=[], rtc='C19',
         level_text='Proved (VC, all diagrams of any length and width, boxes of any arity 0..n -> 0..m): the main clause. Wire '
                    'values are abstract non-tuple values (either truth value), a box function is an arbitrary map from input '
@@ -389,16 +396,22 @@ PROPS = {
                    'three geometric branches, recomputed offsets and layers) and of the cat/monoidal constructors and '
                    'compositions it calls is re-read from /repo on every run and verified, path by path, against '
                    'functional contracts written from the interchanger axiom; every obligation (result equals the axiom '
-                   'instance, frame, offsets, representation invariant, refusal iff connected, IndexError iff out of '
-                   'range, no other exception) is discharged by z3/cvc5 for all diagrams, all indices and both flags. '
+                   'instance, frame, offsets, representation invariant, IndexError iff out of range, no other exception) is '
+                   'discharged by z3/cvc5 for all diagrams, all indices and both flags. The refusal clause is stated from the '
+                   'property (not from the code): a move past a box that shares a wire with the moving box is refused '
+                   '(discharged); a refused pair shares a wire or one box is enclosed by the wires of the other (discharged); '
+                   '"refused only if the boxes share a wire" is REFUTED for the enclosed, unwired case: known finding F24. '
                    'Distant moves (|i-j|>1): both recursive loops are verified with a relational invariant against the '
                    'call-site contract of the adjacent move: after k steps the moving box sits at i-/+k, the boxes it passed '
                    'keep their order one place back, every layer outside the interval is untouched, dom / cod / length and the '
-                   'representation invariant are kept; IndexError only for out-of-range indices.',
+                   'representation invariant are kept; the left / right preference is forwarded to every adjacent step; '
+                   'IndexError only for out-of-range indices.',
         level_note='Trusted: pyvc + solvers; built-in list/slice semantics as encoded; L-ichg (an interchanger-axiom '
                    'instance denotes the same morphism under every monoidal functor) is mathematics, assumed; the '
-                   'exactness of the refusal of a distant move (refused iff some box on the way is wired to the moving box) follows '
-                   'from the exact refusal of each adjacent step and is exercised by the bounded driver (all diagrams <= 3/4 boxes, all index pairs).',
+                   'refusal clause of a distant move (refused exactly when some box on the way is wired to the moving box) is '
+                   'checked by the bounded driver with an independent wire-tracking oracle (all diagrams <= 3/4 boxes, all '
+                   'index pairs): a refusal of an unwired move is attributed to F24 only if replaying the move step by step '
+                   'ends at an enclosed, unwired adjacent pair.',
         technique='VC generation from the real AST + z3/cvc5 (sequence theory, Ackermannised), functional contracts; '
                   'bounded run-time contracts as stand-in for distant moves'),
 }
